@@ -532,6 +532,12 @@ func checkRemarksLen(remarks string) string {
 }
 
 func extractAddressInfos(pkScript []byte) (scriptClass txscript.ScriptClass, recipient, staking, binding string, reqSigs int, err error) {
+	if txscript.GetScriptClass(pkScript) == txscript.MultiSigTy {
+		// no address is reported for multisig scripts, and txscript.ExtractPkScriptAddrs
+		// dereferences a nil address when one of the public keys does not parse
+		_, reqSigs, err = txscript.CalcMultiSigStats(pkScript)
+		return txscript.MultiSigTy, "", "", "", reqSigs, err
+	}
 	scriptClass, addrs, _, reqSigs, err := txscript.ExtractPkScriptAddrs(pkScript, config.ChainParams)
 	if err != nil {
 		return 0, "", "", "", 0, err
